@@ -397,6 +397,7 @@ def evaluate(cases):
             stats["stack_rows"] += th["stackTable"]["length"]
             stats["frames"] += th["frameTable"]["length"]
             stats["markers"] += th["markers"]["length"]
+            stats["native_symbols"] = stats.get("native_symbols", 0) + th["nativeSymbols"]["length"]
         stats["counters"] += len(prof.get("counters", []))
         stats["visible_refs"] += len(prof["meta"].get("initialVisibleThreads", []))
         c["_summary"] = {"threads": [(t["pid"], t["tid"], t["name"], t["isMainThread"]) for t in prof["threads"]],
